@@ -118,7 +118,7 @@ func init() {
 	})
 	register(&PropSpec{
 		ID: "C03",
-		Explanation: "Decided: R-JSONNUM - default values are not decoded into an untyped value without UseNumber; R-SUBOBJRULES - the value built for an unset sub-object is stored only where its presence rules hold. Decided: R-SUPPLIEDNONNIL - the producer side of R-UNSETNIL (see C01). Decided: R-UNSETNIL - presence of struct-mapped properties: nil pointer / slice / map and the zero value of a disabled property are unset, unexported fields are refused; R-REBUILT - constructor-only fields are never used without a test for the unfilled case. R-OBJ - the presence-rule evaluator is reached on every accepting path of ObjectSchema Unserialize / Validate / Serialize (map-based and struct-mapped " +
+		Explanation: "Decided: R-DISCROUTE - where Validate / Serialize choose the member for a struct value by its Go type, the choice is made only with DiscriminatorInlined false or under a branch on what was read out of the value (its discriminator); R-OBJ clause - a default is stored for an unset property only with the property's Disabled flag known false (tested there, or implied by the outcome of the helper that works the value out). Decided: R-JSONNUM - default values are not decoded into an untyped value without UseNumber; R-SUBOBJRULES - the value built for an unset sub-object is stored only where its presence rules hold. Decided: R-SUPPLIEDNONNIL - the producer side of R-UNSETNIL (see C01). Decided: R-UNSETNIL - presence of struct-mapped properties: nil pointer / slice / map and the zero value of a disabled property are unset, unexported fields are refused; R-REBUILT - constructor-only fields are never used without a test for the unfilled case. R-OBJ - the presence-rule evaluator is reached on every accepting path of ObjectSchema Unserialize / Validate / Serialize (map-based and struct-mapped " +
 			"branches); its set/unset dispatch, and the rejects for required, required_if, required_if_not and conflicts have the declared polarity; undeclared and non-string " +
 			"keys are rejected wherever supplied keys are walked; a value derived from GetDefaults() is stored only under a failed lookup of the same key (a supplied value is " +
 			"never overridden); a disabled property is never unserialized and the object code cannot bypass PropertySchema.Unserialize; the inline shorthand is guarded by " +
@@ -126,6 +126,7 @@ func init() {
 			"non-inlined discriminator by copy, results get it back. R-NOCOERCE - as in C02 (Validate / Serialize do not coerce discriminators or fields). R-UNSETNIL - the presence function of struct-mapped objects can report a nil pointer, slice and map field as unset (what Unserialize leaves for an absent property). R-DISABLED - every PropertySchema method that hands data to its type (Unserialize, Validate, Serialize, data-mode ValidateCompatibility) returns a possibly-nil error only where Disabled is known false (branch on the flag, or a helper whose nil result implies it). NOT decided: the full truth table over interacting rule graphs and presence subsets.",
 		Rules: []func(*Ctx){
 			func(c *Ctx) { c.ruleJSONNum("R-JSONNUM") },
+			func(c *Ctx) { c.ruleDiscRoute("R-DISCROUTE"); c.R.Floor("R-DISCROUTE", 1) },
 			func(c *Ctx) { c.ruleSubObjRules("R-SUBOBJRULES") },
 			func(c *Ctx) { c.ruleSuppliedNonNil("R-SUPPLIEDNONNIL") },
 			func(c *Ctx) { c.ruleDiscPresent("R-DISCPRESENT"); c.R.Floor("R-DISCPRESENT", 2) },
@@ -140,7 +141,7 @@ func init() {
 	})
 	register(&PropSpec{
 		ID: "C02",
-		Explanation: "Decided: R-SERVAL - a Serialize that asks its own Validate constructs no rejection that this Validate does not construct as well. Decided: R-MAPORDER (converted-key clause) - no insertion under a converted key without a duplicate test, so size bounds checked on the source hold for the result. Decided: R-CONVKIND - conversions of values in Validate / Serialize only between agreeing kinds, unsigned values above MaxInt64 excluded; R-FMTPREC - no float becomes a string value through a fixed-precision verb. R-MUSTUSE - every declared constraint (json min, max, pattern, values) is read on every accepting path of Unserialize, Validate, Serialize and the typed " +
+		Explanation: "Decided: R-OVERFLOW - every int64 multiplication / addition on a parsed count in the unit parser is dominated by an overflow pre-check (a unit string that totals 2^63 or more is not accepted as a wrapped-around integer). Decided: R-SERVAL - a Serialize that asks its own Validate constructs no rejection that this Validate does not construct as well. Decided: R-MAPORDER (converted-key clause) - no insertion under a converted key without a duplicate test, so size bounds checked on the source hold for the result. Decided: R-CONVKIND - conversions of values in Validate / Serialize only between agreeing kinds, unsigned values above MaxInt64 excluded; R-FMTPREC - no float becomes a string value through a fixed-precision verb. R-MUSTUSE - every declared constraint (json min, max, pattern, values) is read on every accepting path of Unserialize, Validate, Serialize and the typed " +
 			"variants of every schema type (interprocedural must-analysis over callees on the same receiver); R-BOUNDFORM - each comparison with a bound is the inclusive form " +
 			"(reject iff q < min / q > max), its violating branch returns an error, the measured quantity is the value (numbers) or its length (sized kinds) and all " +
 			"comparisons of one type agree on it; float tests exclude NaN; R-NARROW - lossy conversions to int64 in the input mappers are range- or round-trip-guarded; " +
@@ -148,6 +149,7 @@ func init() {
 			"polarity; R-ERRDROP - no error of a repo call is discarded. R-CHILDREN - as in C01; R-NOCOERCE - no text-parsing conversion (strconv.Parse*, unit parser) is reachable from Validate / Serialize / ValidateType / SerializeType (edges behind a reflect-kind gate that excludes strings are cut; edges into ValidateCompatibility are not followed - assumption). R-CONVKIND - every reflect Convert to a statically known scalar type reachable from Validate / Serialize happens only for source kinds that agree with the target (integer widths among themselves, integer or float to float, otherwise the same kind): established by Kind() comparisons or by a kind predicate of the repo that is evaluated here over all pairs of kinds. NOT decided: that the lenient conversions denote the right number; unit arithmetic (C16).",
 		Rules: []func(*Ctx){
 			func(c *Ctx) { c.ruleSerVal("R-SERVAL") },
+			func(c *Ctx) { c.ruleOverflow("R-OVERFLOW"); c.R.Floor("R-OVERFLOW", 2) },
 			func(c *Ctx) { c.ruleFmtPrec("R-FMTPREC") },
 			func(c *Ctx) { c.ruleGrammar("R-GRAMMAR"); c.R.Floor("R-GRAMMAR", 2) },
 			func(c *Ctx) { c.ruleConvKind("R-CONVKIND"); c.R.Floor("R-CONVKIND", 4) },
@@ -220,7 +222,7 @@ func init() {
 		Explanation: "Decided: R-LOOPBLOCK - no channel operation in the functions the read loop runs can wait for a receiver outside the client (the blocking hand-over of emitted signals is a known finding). Decided: R-FORWARDALL - the signal forwarder leaves its loop only on a closed channel, cancellation or a failed write. Decided R-STARTGATE - a run's registration and the writing of its work start lie in one section read-locked by an RWMutex that Close write-holds for the client-done message; R-READFIRST - the read loop is started before the work start is written; R-RELOCK - no call made inside a critical section takes the same mutex again; R-DONEGATE also over every Add on the WaitGroup Close waits for, and no insertion replaces a pending entry; R-WG accepts a count reserved by a callee and requires its release. Decided R-SIGORDER, R-DONEGATE, R-SIGCHAN - the signal forwarder starts after the work start is written, runs are registered only on an open client, emitted signals are handed over with a way out; every send / close pair on a caller's signal channel is separated by goroutine confinement, the state mutex or the hand-over marker; every close goes with the removal of the table entry; every end of a run closes its channel. (structural necessary conditions for the absence of lost hand-overs and lost wake-ups in the client): R-ATOMIC - the running flag is cleared only " +
 			"in a critical section that also scans the pending table, and set in the section that tested it and starts the read loop; presence-check-then-insert on guarded " +
 			"tables happens in one critical section; R-MUSTPASS - every exit of the read loop has cleared the running flag since the last read; R-PAIR - the result store is " +
-			"followed by Signal in the same critical section and Wait is guarded by a test of the condition; R-WG - Add dominates each go whose goroutine calls Done, Done is " +
+			"followed by Signal in the same critical section and Wait is guarded by a test of the condition; R-WG (d) - every count added to a field-held WaitGroup is released (Done direct, deferred, through Once.Do, in a callee or goroutine that always calls it) in the call tree that added it; a function that leaves with the count hands the obligation to its static callers, an exported or address-taken one must not leave with it; R-WG - Add dominates each go whose goroutine calls Done, Done is " +
 			"reached on every exit, Close cancels the context before every wait; R-BLOCKLOCK - no blocking operation under the client mutex except the encoder write (one " +
 			"documented exception). R-IDLECHECK - every path from one Decode of the read loop to the next passes the call that clears the running flag when nothing is pending. R-BLOCKLOCK has no exception: the signal hand-over under the mutex was a demonstrated deadlock and is repaired; R-SIGCHAN checks that every send on / close of a caller's signal channel is confined to the read loop's goroutine; R-PAIR also requires an inserted pending entry to be awaited or removed on every path. R-ONEDECODER - the client has exactly one CBOR stream decoder, created in its constructor. NOT decided: liveness under all schedules as such; deadlocks that need reasoning about the peer.",
 		Assumptions: []string{"sync.Cond has no spurious wake-ups (Go semantics)", "the peer behaves correctly (property premise)"},
@@ -248,7 +250,7 @@ func init() {
 		Explanation: "Decided: R-CLOSEONCE - the session's input is closed by a function handed to sync.Once.Do only (a second Close was taken for a server failure and dropped the reports of the steps still running). Decided: R-DEFERUNLOCK - a mutex held across a call of a function kept in a field (the step's initializer) is released by a deferred unlock; R-LOCKSET - the guarded fields of the server session and of the callable step are touched under their mutex only. Decided: R-CHAN no-report-after-Done - nothing that can send on the error channel runs after a goroutine's Done (defer order included); R-SIGNONFATAL - no step-fatal report on behalf of a signal. Decided: R-PLUGINPANIC - no explicit panic in the plugin entry point. R-CHAN - no goroutine can send on the error channel after its close (close must be joined with all sending goroutines), the report loop only " +
 			"stops when the channel is closed or hands over to a deferred drain that keeps receiving until then, no report is sent non-blockingly, and the client's signal channels are closed/sent under one discipline; R-RECOVER - every " +
 			"goroutine that runs step code does so below a recover scope; R-EXACTLYONE - every path of the step runner, including the panic path through the recover handler, " +
-			"emits exactly one terminal message; R-WG for the server goroutines; R-MAPNIL - unknown step / signal IDs cannot be dereferenced (server side of C11). " +
+			"emits exactly one terminal message; R-WG (d) - no count on a WaitGroup (the session's, a step's) is left for another entry point to release: which entry points a client makes run is the client's choice; R-WG for the server goroutines; R-MAPNIL - unknown step / signal IDs cannot be dereferenced (server side of C11). " +
 			"R-DECODEEXIT - the failure branch of a Decode inside a message loop cannot lead back to it; R-RECOVER covers CallSignal as well as CallStep. R-FRESHDEC - the target of every Decode inside a message loop is allocated per iteration (a message that omits a field cannot inherit the previous message's). NOT decided: byte-level behaviour of the CBOR decoder on truncated input; behaviour of user step code.",
 		Assumptions: []string{"channel semantics of Go (send on closed channel panics; send without receiver blocks)"},
 		Rules: []func(*Ctx){
@@ -424,7 +426,7 @@ func init() {
 			"math.Floor quotient, never the loop-carried remainder; R-TRIM - digits are trimmed only from renderings known to contain a decimal point, with a cutset that does " +
 			"not also contain the point; R-GRAMMAR - the parser's regexp templates (verbs replaced by quoted-literal placeholders, parsed with regexp/syntax) contain no " +
 			"any-character operator, every named count group needs at least one digit and matches only digits and a literal point, interpolated names are QuoteMeta'd; " +
-			"R-OVERFLOW - every int64 multiplication / addition on values derived from strconv.ParseInt is dominated by an overflow pre-check against MaxInt64 with a " +
+			"R-SUMALL - on every way out of the parser's fold step taken after a count was parsed, the sum that is the result afterwards is computed from the count and the sum received, and a switch from the integer sum to the float sum loses nothing (the float sum is kept up to date in integer mode, or is computed from the integer sum, or the caller adds both); R-OVERFLOW - every int64 multiplication / addition on values derived from strconv.ParseInt is dominated by an overflow pre-check against MaxInt64 with a " +
 			"positive divisor. NOT decided: the numeric round trip itself, float tolerance, negative component rendering for values above 2^53, FormatLongFloat's %f rendering.",
 		Assumptions: []string{"unit multipliers are positive (NewUnits does not enforce it; a zero or negative multiplier is outside the rule's guard recognition)"},
 		Rules: []func(*Ctx){
@@ -433,6 +435,7 @@ func init() {
 			func(c *Ctx) { c.ruleTrim("R-TRIM") },
 			func(c *Ctx) { c.ruleGrammar("R-GRAMMAR"); c.R.Floor("R-GRAMMAR", 2) },
 			func(c *Ctx) { c.ruleOverflow("R-OVERFLOW"); c.R.Floor("R-OVERFLOW", 2) },
+			func(c *Ctx) { c.ruleSumAll("R-SUMALL"); c.R.Floor("R-SUMALL", 3) },
 		},
 	})
 	register(&PropSpec{
